@@ -269,6 +269,54 @@ func VerifH08b() {
 }
 
 // ---------------------------------------------------------------------------
+// H08g — format codes are 0 (text) or 1 (binary); a Bind may carry any 16-bit
+// value (C08, C02, C06). One parameter-format code and one result-format code,
+// both arbitrary, on a one-parameter, one-column statement; then Describe
+// portal, Execute, Sync. With admissible codes the cycle is served and the
+// handler sees the parameter tagged with the code sent. With any other code
+// the Bind is a failing message — exactly one ErrorResponse, the rest of the
+// cycle discarded, one ReadyForQuery — and in no case does the server announce
+// a format code of its own that the protocol does not define.
+// ---------------------------------------------------------------------------
+func VerifH08g() {
+	pf := nondetU16()
+	rf := nondetU16()
+	val := nondetBytes(1)
+	var seen []Parameter
+	fn := func(ctx context.Context, dw DataWriter, params []Parameter) error {
+		seen = params
+		if err := dw.Row([]any{"v"}); err != nil {
+			return err
+		}
+		return dw.Complete("T")
+	}
+	bind := vCat(vCStr(nil), vCStr(nil), vU16(1), vU16(int(pf)), vU16(1), vU32(1), val, vU16(1), vU16(int(rf)))
+	input := vCat(vMsgBytes('B', bind),
+		vMsgBytes('D', vCat([]byte{'P'}, vCStr(nil))),
+		vMsgBytes('E', vCat(vCStr(nil), vU32(0))),
+		vMsgBytes('S', nil))
+	w := vNewWorld(input, 64)
+	vAssert("set-ok", w.ses.Statements.Set(w.ctx, "", NewStatement(fn, WithColumns(vTextColumns(1)), WithParameters([]oid.Oid{25}))) == nil)
+	var out string
+	for i := 0; i < 4; i++ {
+		got, err := w.step()
+		vAssert("connection-stays-up", err == nil)
+		out += got
+	}
+	vAssert("wire-wellformed", vWireOK(w.conn.out))
+	vAssert("one-ReadyForQuery-for-the-Sync", vCount(out, 'Z') == 1 && out[len(out)-1] == 'Z')
+	if pf <= 1 && rf <= 1 {
+		vAssert("admissible-codes-served", out == "2TDCZ")
+		vAssert("parameter-tagged-with-the-code-sent", len(seen) == 1 && seen[0].Format() == FormatCode(pf))
+		vReach("admissible-format-codes")
+		return
+	}
+	vAssert("inadmissible-format-code-fails-the-bind", out == "EZ")
+	vAssert("inadmissible-format-code-no-callback", seen == nil)
+	vReach("inadmissible-format-code")
+}
+
+// ---------------------------------------------------------------------------
 // H08f — a handler that writes Go strings into int4 columns (C08, C09). pgx
 // sends a string as it is in text format and cannot encode it in binary
 // format. Whatever the Bind's result formats: a column announced as binary is
